@@ -11,4 +11,5 @@ let lookup (p : string) : Model.sexp -> Model.sexp =
   | "c04" -> Model.run_c01
   | "c19" -> Model.run_c19
   | "c06" -> Model.run_c06
+  | "c13" -> Model.run_c13
   | _ -> failwith ("unknown property " ^ p)
